@@ -306,6 +306,10 @@ fn check_case(rep: &mut Report, text: &str, ast: &[Rule], stages: &[(&str, Vec<R
                 rep.known_finding("c01-plus-unrolled-trailing-skip", w);
                 continue;
             }
+            if matches!(o1u, Outcome::Budget | Outcome::Diverges(_)) {
+                rep.inconclusive(json!({"why": "unroll pass disagreement, and the reference runs out of its step budget under the e ~ e* reading that would explain it", "grammar": text, "rule": rule, "input": input}));
+                continue;
+            }
         }
         rep.violation(w);
     }
@@ -348,6 +352,10 @@ fn check_case(rep: &mut Report, text: &str, ast: &[Rule], stages: &[(&str, Vec<R
         let (base_u, _) = reference(ast, rule, input, PlusReading::Unrolled);
         if same_outcome(&real, &base_u, true) {
             rep.known_finding("c01-plus-unrolled-trailing-skip", w);
+            return;
+        }
+        if matches!(base_u, Outcome::Budget | Outcome::Diverges(_)) {
+            rep.inconclusive(json!({"why": "pipeline disagreement under the documented reading of e+, and the reference runs out of its step budget under the e ~ e* reading that would explain it", "grammar": text, "rule": rule, "input": input}));
             return;
         }
         if list_is_documented {
